@@ -141,7 +141,7 @@ impl Property for Dispatch {
     fn decode(&self, t: &mut Tape<'_>) -> DispatchCase {
         let co = ConvOpts {
             max_depth: 3,
-            low_index_multi: false,
+            low_index_multi: true,
             ..ConvOpts::default()
         };
         let mut spec = gen_conv_spec(t, &co);
